@@ -32,6 +32,16 @@ def check_model(inst, env, Rmod, Noise, deep):
                 out.append("nifty.re wiener_filter_posterior (%s): mean %s, the posterior mean is %s" % (label, np.round(got, 9).tolist(), np.round(m_exp, 9).tolist()))
         except Exception as e:
             out.append("nifty.re wiener_filter_posterior (%s) raised %s: %s" % (label, type(e).__name__, str(e)[:140]))
+    # the linearised branch at a non-zero position: for a linear model the linearisation is the model itself
+    p0 = rm.pos([0.7, -0.4, 0.9])
+    for label, args in (("signal space", dict(signal_space=True)), ("data space", dict(signal_space=False, noise_covariance=lambda x: x / rm.ninv))):
+        try:
+            s, _ = jft.wiener_filter_posterior(rm.lh, p0, key=key, n_samples=0, draw_linear_kwargs=kw, jit=False, model_is_linear=False, **args)
+            got = lg.ReModel.flat(s.pos)
+            if not np.allclose(got, m_exp, atol=1e-9):
+                out.append("nifty.re wiener_filter_posterior (%s, linearised at a non-zero position): mean %s, the posterior mean is %s" % (label, np.round(got, 9).tolist(), np.round(m_exp, 9).tolist()))
+        except Exception as e:
+            out.append("nifty.re wiener_filter_posterior (%s, linearised) raised %s: %s" % (label, type(e).__name__, str(e)[:140]))
     try:
         s, _ = jft.wiener_filter_posterior(rm.lh, key=key, n_samples=2, draw_linear_kwargs=kw, jit=False)
         sm = s.samples
@@ -63,6 +73,25 @@ def check_model(inst, env, Rmod, Noise, deep):
         L = np.array(cols).T
         if np.max(np.abs(base)) > 1e-12 or not np.allclose(L @ L.T, D, atol=1e-9):
             out.append("classic WienerFilterCurvature: samples from the inverse have covariance %s, the posterior covariance is %s" % (np.round(L @ L.T, 8).tolist(), np.round(D, 8).tolist()))
+        # a non-standard prior covariance S = diag(4, 1/4, 1)
+        sv = np.array([4., .25, 1.])
+        S2 = ift.BlockDiagonalOperator(cm.dom, {"a": ift.makeOp(ift.makeField(cm.da, sv[:2]), sampling_dtype=np.float64), "b": ift.ScalingOperator(cm.db, sv[2], sampling_dtype=np.float64)})
+        curv2 = ift.WienerFilterCurvature(cm.Rop, N, S2, ic, ic)
+        mS, DS = lg.mat(inst["mS"]).ravel(), lg.mat(inst["DS"])
+        got = lg.ClModel.flat(curv2.inverse_times(j))
+        if not np.allclose(got, mS, atol=1e-9):
+            out.append("classic WienerFilterCurvature with prior diag(4, 1/4, 1): inverse_times(j) = %s, the posterior mean is %s" % (np.round(got, 9).tolist(), np.round(mS, 9).tolist()))
+        with Noise(Rmod) as nz:
+            nz.hot, nz.count = None, 0
+            base = lg.ClModel.flat(curv2.draw_sample(from_inverse=True))
+            nex = nz.count
+            cols = []
+            for k in range(nex):
+                nz.hot, nz.count = k, 0
+                cols.append(lg.ClModel.flat(curv2.draw_sample(from_inverse=True)))
+        L = np.array(cols).T
+        if np.max(np.abs(base)) > 1e-12 or not np.allclose(L @ L.T, DS, atol=1e-9):
+            out.append("classic WienerFilterCurvature with prior diag(4, 1/4, 1): samples from the inverse have covariance %s, the posterior covariance is %s" % (np.round(L @ L.T, 8).tolist(), np.round(DS, 8).tolist()))
     except Exception as e:
         out.append("classic WienerFilterCurvature raised %s: %s" % (type(e).__name__, str(e)[:140]))
     if not deep:
